@@ -400,6 +400,23 @@ pub struct Scenario {
     /// what the owner of the served directory does to it between two phases of connections
     #[serde(default)]
     pub owner_ops: Vec<OwnerOp>,
+    /// the configuration reaches the node the way it reaches the shipped binary: through the real
+    /// start-up code (environment, then rws.config.toml in the served directory, then command line)
+    #[serde(default)]
+    pub boot: Option<Boot>,
+}
+
+/// Start-up through the real configuration readers of /repo. The file itself is an entry of the tree
+/// (`<root>/rws.config.toml`). `env` is what the environment holds beforehand, `cli` what the
+/// command line says (applied last, as in `bootstrap()`). When `exact` is set, `Scenario.env` is the
+/// effective configuration the model reasons with and the harness notes any difference after
+/// start-up; otherwise the file uses syntax whose meaning the pinned reader does not define
+/// (multi-line arrays) and only configuration-independent oracles apply.
+#[derive(Serialize, Deserialize, Clone, Debug, PartialEq, Default)]
+pub struct Boot {
+    pub env: Vec<(String, String)>,
+    pub cli: Vec<String>,
+    pub exact: bool,
 }
 
 /// The owner redeploys, cleans up or unmounts while the server keeps running. `path` is relative to
@@ -445,6 +462,7 @@ impl Scenario {
             pool: None,
             disk_fault: None,
             owner_ops: vec![],
+            boot: None,
         }
     }
 }
